@@ -36,6 +36,9 @@ class TLCResult:
         m = re.search(r'Error: Action property (\S+) is violated', out)
         if m:
             self.violated = m.group(1)
+        m = re.search(r'Error: Temporal property (\S+) was violated', out)
+        if m:
+            self.violated = self.violated or m.group(1)
         if 'Temporal properties were violated' in out:
             self.violated = self.violated or 'temporal'
         if 'Deadlock reached' in out:
